@@ -69,7 +69,16 @@ def run(ctx):
         if line.startswith("spec "):
             _, cid, rest = line.rstrip("\n").split(" ", 2)
             specs[cid] = rest
-    rc, out = sh("%s < %s" % (driver, ops), timeout=3000)
+    # which proposed repairs the model follows: those whose finding is recorded as fixed
+    # (VERIF_C20_ASSUME_FIXED=a,b,.. or "all" overrides, for trying fixes with tools/with_patch)
+    flag_of = {"keepUnrun": "C20-skip-dropped", "oneCorrection": "C20-language-dup",
+               "keepSuffixPreamble": "C20-suffix-lost", "quoteReset": "C20-format-sexp-quote-state"}
+    status = {k["id"]: k.get("status") for k in ctx.known}
+    assume = [x for x in os.environ.get("VERIF_C20_ASSUME_FIXED", "").split(",") if x]
+    fixes = {f: (status.get(i) == "fixed" or f in assume or "all" in assume) for f, i in flag_of.items()}
+    ctx.coverage["model_follows_repairs"] = fixes
+    fline = "fixes " + " ".join("1" if fixes[f] else "0" for f in ("keepUnrun", "oneCorrection", "keepSuffixPreamble", "quoteReset"))
+    rc, out = sh("(echo '%s'; cat %s) | %s" % (fline, ops, driver), timeout=3000)
     evals = 0
     distinct = set()
     samples = []
@@ -119,6 +128,7 @@ def run(ctx):
                 fp = {"clause": c}
                 if c not in PRIMARY:
                     fp.update(flags)
+                    fp["quoted"] = kv.get("quoted", "0")
                 ctx.violation("judge", "C20 judge failed on the real files: %s — %s" % (c, WHAT.get(c, c)),
                               {"case": cid, "spec": specs.get(cid, ""), "clause": c, "all_failed_clauses": clauses,
                                "result": {k: v for k, v in kv.items() if k != "model1"}},
